@@ -96,7 +96,7 @@ def sched_to_events(h):
         elif e['ev'] == 'Tick':
             evs.append({'ev': 'Tick'})
         elif e['ev'] == 'Reply':
-            evs.append({'ev': 'Reply', 'alg': e['alg'], 't': e['t'], 'out': e['out'], 'new': sorted(e['new']), 'k': 0})
+            evs.append({'ev': 'Reply', 'alg': e['alg'], 't': e['t'], 'out': e['out'], 'new': sorted(e['new']), 'old': bool(e.get('old', False))})
         elif e['ev'] == 'Reload':
             evs.append({'ev': 'Reload', 'S': sorted(e['S'])})
     return evs
